@@ -423,14 +423,22 @@ class C04(Spec):
 SPEC = C04()
 
 CLAIM = dict(
-    text=("Kernel-checked theorems over an executable Lean model of hll_union (gadget, every case of union_impl, copy_or_downsample, "
-          "mergeHll/mergeList, deferred rebuild, rvalue adoption, reset): down-sampling/merging computes the per-slot maximum of the "
-          "folded source registers; get_result is pure; the full-strength statements union_content / union_lgk / union_perm_invariant / "
-          "union_reset are PROVED FALSE of the current code with concrete witnesses (two defects, replayed on the real headers every "
-          "run and listed as open known findings), their partial versions are proved. The model is tied to the real headers by "
-          "differential correspondence; an independent nondeterministic specification oracle recomputes every union result from the "
-          "inputs' own item lists."),
-    note=("Partial: union_content/lgk/perm are proved only under the stated side conditions (no precision reduction pending); the "
-          "per-width byte decoding inside mergeHll is covered by correspondence only."),
+    text=("Kernel-checked theorems over an executable Lean model of hll_union as coded (gadget, every case of union_impl, "
+          "copy_or_downsample, mergeHll/mergeList, deferred rebuild, rvalue adoption, reset). The full-strength statements "
+          "union_content / union_lgk / union_perm_invariant / union_estimate_pure / union_reset are PROVED FALSE of the current code "
+          "(..._full_false, concrete witnesses; two defects D1/D14, replayed on the real headers every run and listed as open known "
+          "findings with proposed fixes). Proved: mergeHll / copy_or_downsample compute the per-slot maximum of the folded source "
+          "registers for every pair of precisions (union_merge_content, union_downsample_content); get_result is pure and "
+          "type-independent (union_get_result_pure); and for EVERY history without precision reduction (lvalue/rvalue updates whose "
+          "HLL-mode inputs have lg_k = lg_max_k, LIST/SET inputs of any lg_k, raw items, estimate calls, resets) the result is exactly "
+          "the sketch of all offered items at lg_max_k, independent of order, interleaved estimate calls and lvalue/rvalue "
+          "(union_lgk_partial, union_content_partial, union_perm_invariant_partial, union_estimate_pure_partial, "
+          "union_lvalue_eq_rvalue_partial, union_reset_partial). The model is tied to the real headers by differential "
+          "correspondence; an independent nondeterministic specification oracle recomputes every union result from the inputs' own "
+          "item lists."),
+    note=("Partial: when an input forces a precision reduction the code itself violates the property (D1, D14), so the content / lg_k / "
+          "permutation theorems are proved for histories without reduction only; the per-width byte decoding inside mergeHll is "
+          "modelled on registers (covered by correspondence for HLL_4/6/8 sources); after a D14 manifestation the oracle stops "
+          "specifying that union."),
     technique="Lean 4 proofs + refutation witnesses + differential correspondence + independent specification oracle with tagged known-defect transitions",
     design="DESIGN.md §3 C04")
